@@ -533,57 +533,139 @@ inline Q parse_q(const std::string &s0) {
   boost::multiprecision::cpp_int den = 1;
   for (size_t i = 0; i < fp.size(); i++) den *= 10;
   std::string digits = (neg ? ip.substr(1) : ip) + fp;
+  while (digits.size() > 1 && digits[0] == '0') digits.erase(0, 1);  // a leading 0 would be read as octal
   Q q(boost::multiprecision::cpp_int(digits), den);
   return neg ? Q(-q) : q;
 }
+// Exact numbers of the replay build: elements of a tower Q(g_1)...(g_k) of real quadratic extensions, g_i > 0,
+// g_i^2 = sq_i in Q(g_1..g_{i-1}). k = 0 (plain rationals) unless a harness asks for algebraic numbers (Gauss nodes).
+// An element is the coefficient vector (size 2^k) of a multilinear polynomial in the generators; generator i is bit i.
+// Representation is unique (so == is coefficient-wise) provided no g_i lies in the field below it - true for the
+// Gauss-Legendre nodes this is used for.
+using V = std::vector<Q>;
+struct Tower {
+  std::vector<std::string> names;
+  std::vector<V> squares;
+  static Tower &get() {
+    static Tower t;
+    return t;
+  }
+  size_t K() const { return names.size(); }
+};
+inline V vpad(V x, size_t L) {
+  x.resize(size_t(1) << L, Q(0));
+  return x;
+}
+inline V vadd(const V &x, const V &y) {
+  V r(std::max(x.size(), y.size()), Q(0));
+  for (size_t i = 0; i < x.size(); i++) r[i] += x[i];
+  for (size_t i = 0; i < y.size(); i++) r[i] += y[i];
+  return r;
+}
+inline V vneg(V x) {
+  for (auto &c : x) c = -c;
+  return x;
+}
+inline V vmul(const V &x, const V &y, size_t L) {
+  if (L == 0) return V{x[0] * y[0]};
+  size_t h = size_t(1) << (L - 1);
+  V x0(x.begin(), x.begin() + h), x1(x.begin() + h, x.end()), y0(y.begin(), y.begin() + h), y1(y.begin() + h, y.end());
+  V sq = vpad(Tower::get().squares[L - 1], L - 1);
+  V r0 = vadd(vmul(x0, y0, L - 1), vmul(vmul(x1, y1, L - 1), sq, L - 1));
+  V r1 = vadd(vmul(x0, y1, L - 1), vmul(x1, y0, L - 1));
+  r0.insert(r0.end(), r1.begin(), r1.end());
+  return r0;
+}
+inline int vsign(const V &x, size_t L) {
+  if (L == 0) return x[0] > 0 ? 1 : (x[0] < 0 ? -1 : 0);
+  size_t h = size_t(1) << (L - 1);
+  V x0(x.begin(), x.begin() + h), x1(x.begin() + h, x.end());
+  int s0 = vsign(x0, L - 1), s1 = vsign(x1, L - 1);
+  if (s1 == 0) return s0;
+  if (s0 == 0 || s0 == s1) return s1;
+  V sq = vpad(Tower::get().squares[L - 1], L - 1);
+  V t = vadd(vmul(x0, x0, L - 1), vneg(vmul(vmul(x1, x1, L - 1), sq, L - 1)));
+  return s0 * vsign(t, L - 1);
+}
+inline V vinv(const V &x, size_t L) {
+  if (L == 0) return V{Q(1) / x[0]};
+  size_t h = size_t(1) << (L - 1);
+  V x0(x.begin(), x.begin() + h), x1(x.begin() + h, x.end());
+  V sq = vpad(Tower::get().squares[L - 1], L - 1);
+  V norm = vadd(vmul(x0, x0, L - 1), vneg(vmul(vmul(x1, x1, L - 1), sq, L - 1)));
+  V ni = vinv(norm, L - 1);
+  V r0 = vmul(x0, ni, L - 1), r1 = vmul(vneg(x1), ni, L - 1);
+  r0.insert(r0.end(), r1.begin(), r1.end());
+  return r0;
+}
 class Real {
-  Q v;
+  V v;
+  static size_t K() { return Tower::get().K(); }
 
  public:
-  Real() : v(0) {}
+  Real() : v{Q(0)} {}
   template <typename I, std::enable_if_t<std::is_integral_v<I>, bool> = true>
-  explicit Real(I i) : v((long long)i) {}
+  explicit Real(I i) : v{Q((long long)i)} {}
   struct FromQ {};
-  Real(FromQ, Q q) : v(std::move(q)) {}
+  Real(FromQ, Q q) : v{std::move(q)} {}
+  struct FromV {};
+  Real(FromV, V x) : v(std::move(x)) {}
   static Real var(const std::string &nm) {
     auto &m = Engine::get().model;
     auto it = m.find(nm);
     return Real(FromQ{}, it == m.end() ? Q(0) : it->second);
   }
   static Real frac(long long a, long long b) { return Real(FromQ{}, Q(a, b)); }
-  const Q &q() const { return v; }
-  Real operator+(const Real &o) const { return Real(FromQ{}, v + o.v); }
-  Real operator-(const Real &o) const { return Real(FromQ{}, v - o.v); }
-  Real operator*(const Real &o) const { return Real(FromQ{}, v * o.v); }
+  V full() const { return vpad(v, K()); }
+  int sign() const { return vsign(full(), K()); }
+  Real operator+(const Real &o) const { return Real(FromV{}, vadd(v, o.v)); }
+  Real operator-(const Real &o) const { return Real(FromV{}, vadd(v, vneg(o.v))); }
+  Real operator*(const Real &o) const { return Real(FromV{}, vmul(full(), o.full(), K())); }
   Real operator/(const Real &o) const {
-    if (o.v == 0) {
+    if (o.sign() == 0) {
       stats().reproduced.push_back("division-by-zero");
       throw AbortCase("division by zero in concrete replay");
     }
-    return Real(FromQ{}, v / o.v);
+    return Real(FromV{}, vmul(full(), vinv(o.full(), K()), K()));
   }
-  Real operator-() const { return Real(FromQ{}, -v); }
+  Real operator-() const { return Real(FromV{}, vneg(v)); }
   Real &operator+=(const Real &o) { return *this = *this + o; }
   Real &operator-=(const Real &o) { return *this = *this - o; }
   Real &operator*=(const Real &o) { return *this = *this * o; }
   Real &operator/=(const Real &o) { return *this = *this / o; }
-  bool operator<(const Real &o) const { return v < o.v; }
-  bool operator<=(const Real &o) const { return v <= o.v; }
-  bool operator>(const Real &o) const { return v > o.v; }
-  bool operator>=(const Real &o) const { return v >= o.v; }
-  bool operator==(const Real &o) const { return v == o.v; }
-  bool operator!=(const Real &o) const { return v != o.v; }
-  std::string str() const { return v.str(); }
+  bool operator<(const Real &o) const { return (*this - o).sign() < 0; }
+  bool operator<=(const Real &o) const { return (*this - o).sign() <= 0; }
+  bool operator>(const Real &o) const { return (*this - o).sign() > 0; }
+  bool operator>=(const Real &o) const { return (*this - o).sign() >= 0; }
+  bool operator==(const Real &o) const { return (*this - o).sign() == 0; }
+  bool operator!=(const Real &o) const { return (*this - o).sign() != 0; }
+  std::string str() const {
+    std::string r;
+    for (auto &c : v) r += c.str() + " ";
+    return r;
+  }
 };
-inline Bool lt(const Real &a, const Real &b) { return Bool(a.q() < b.q()); }
-inline Bool le(const Real &a, const Real &b) { return Bool(a.q() <= b.q()); }
-inline Bool gt(const Real &a, const Real &b) { return Bool(a.q() > b.q()); }
-inline Bool ge(const Real &a, const Real &b) { return Bool(a.q() >= b.q()); }
-inline Bool eq(const Real &a, const Real &b) { return Bool(a.q() == b.q()); }
-inline Bool ne(const Real &a, const Real &b) { return Bool(a.q() != b.q()); }
-inline Real algebraic(const std::string &name, const Real &) {
-  stats().notes.push_back("exact replay with the algebraic number " + name + " is not supported by this build");
-  throw AbortCase("algebraic number in concrete replay");
+inline Bool lt(const Real &a, const Real &b) { return Bool(a < b); }
+inline Bool le(const Real &a, const Real &b) { return Bool(a <= b); }
+inline Bool gt(const Real &a, const Real &b) { return Bool(a > b); }
+inline Bool ge(const Real &a, const Real &b) { return Bool(a >= b); }
+inline Bool eq(const Real &a, const Real &b) { return Bool(a == b); }
+inline Bool ne(const Real &a, const Real &b) { return Bool(a != b); }
+// the positive square root of `square`: a new generator of the tower (or the existing one of that name)
+inline Real algebraic(const std::string &name, const Real &square) {
+  auto &T = Tower::get();
+  for (size_t i = 0; i < T.names.size(); i++)
+    if (T.names[i] == name) {
+      V g(size_t(1) << T.K(), Q(0));
+      g[size_t(1) << i] = Q(1);
+      return Real(Real::FromV{}, g);
+    }
+  if (square.sign() <= 0) throw AbortCase("algebraic(): square not positive");
+  T.squares.push_back(square.full());  // lives in the field generated so far
+  T.names.push_back(name);
+  V g(size_t(1) << T.K(), Q(0));
+  g[size_t(1) << (T.K() - 1)] = Q(1);
+  return Real(Real::FromV{}, g);
 }
 #endif
 
